@@ -4,15 +4,16 @@
 cd "$(dirname "$0")"
 WT=$(mktemp -d /tmp/vt-demosweep-XXXX)
 git -C /repo worktree add -q --detach "$WT/r" HEAD || exit 2
-out=seeded/DEMOS.txt; : > $out
+out=${DEMOS_OUT:-seeded/DEMOS.txt}; : > $out
 for p in ${@:-$(ls seeded | grep '^C')}; do
   for d in seeded/$p/*/; do
     d=${d%/}
     grep -qs '"status_on_head": "neutralised' $d/meta.json && { echo "$d neutralised" >> $out; continue; }
     f=$PWD/$d/patch_head.diff; [ -f $f ] || f=$PWD/$d/patch.diff
-    ( cd $WT/r && PYTHONPATH=$WT/r timeout 600 /venv/bin/python $OLDPWD/$d/demo.py >/dev/null 2>&1 ); c=$?
+    mkdir -p $WT/r/_seed/v; cp $d/demo.py $WT/r/_seed/v/demo.py   # (early demos find the tree relative to their own location)
+    ( cd $WT/r && PYTHONPATH=$WT/r timeout 600 /venv/bin/python _seed/v/demo.py >/dev/null 2>&1 ); c=$?
     if git -C $WT/r apply $f 2>/dev/null; then
-      ( cd $WT/r && PYTHONPATH=$WT/r timeout 600 /venv/bin/python $OLDPWD/$d/demo.py >/dev/null 2>&1 ); m=$?
+      ( cd $WT/r && PYTHONPATH=$WT/r timeout 600 /venv/bin/python _seed/v/demo.py >/dev/null 2>&1 ); m=$?
     else m=stale; fi
     git -C $WT/r reset -q --hard; git -C $WT/r clean -qfd
     echo "$d clean=$c changed=$m" >> $out
